@@ -62,7 +62,8 @@ const tdBound = 3 * time.Second
 // RunTeardown executes the scenario and records what was released within the bound.
 func (i *Inst) RunTeardown(s *TdScript, tw *TraceWriter, rng *rand.Rand) error {
 	p := i.P
-	g0, err := i.gauges()
+	// the baseline is taken from a quiet gateway: whatever earlier scripts left behind has finished releasing
+	g0, err := i.quietGauges()
 	if err != nil {
 		return err
 	}
@@ -260,12 +261,58 @@ func (i *Inst) RunTeardown(s *TdScript, tw *TraceWriter, rng *rand.Rand) error {
 	tw.Line(M{"ev": "teardown", "script": s.ID, "transport": s.Transport, "point": s.Point, "cause": causeLabel, "inflight": s.Inflight, "hadHost": hadHost,
 		"hostClosed": hostClosed, "connsClosed": connsClosed, "loopExited": loopIdx >= 0, "relayDone": relayDone, "unregistered": unregIdx >= 0,
 		"gaugesBack": gaugesBack, "goroutinesBack": goroutinesBack, "panicked": panicked, "ms": int(time.Since(t0) / time.Millisecond)})
-	// leave the instance clean for the next script: force everything shut
+	// leave the instance clean for the next script: force everything shut and wait until the gateway has let go
 	t.Close()
 	if bc != nil {
 		bc.Close()
 	}
+	i.waitHandlersGone(t.Cid, start, 5*time.Second)
 	return nil
+}
+
+// waitHandlersGone waits until every handler invocation the gateway entered for cid since mark has returned.
+func (i *Inst) waitHandlersGone(cid string, mark int, d time.Duration) bool {
+	deadline := time.Now().Add(d)
+	for {
+		in, out := 0, 0
+		for _, e := range i.P.Since(mark) {
+			if e.Cid == cid {
+				switch e.Pt {
+				case "gw.enter":
+					in++
+				case "gw.exit":
+					out++
+				}
+			}
+		}
+		if in > 0 && out >= in {
+			return true
+		}
+		if time.Now().After(deadline) {
+			return false
+		}
+		time.Sleep(10 * time.Millisecond)
+	}
+}
+
+// quietGauges reads the connection gauges until two readings 40 ms apart agree.
+func (i *Inst) quietGauges() (map[string]float64, error) {
+	g, err := i.gauges()
+	if err != nil {
+		return nil, err
+	}
+	for k := 0; k < 100; k++ {
+		time.Sleep(40 * time.Millisecond)
+		g2, err := i.gauges()
+		if err != nil {
+			return nil, err
+		}
+		if sameGauges(g, g2) {
+			return g2, nil
+		}
+		g = g2
+	}
+	return g, nil
 }
 
 
